@@ -90,7 +90,11 @@ def arange(start, stop=None, step=1, dtype=None):
         vals = list(range(operator.index(start), operator.index(stop), operator.index(step)))
         dt = INT64
     else:
-        n = int(math.ceil((stop - start) / step))
+        q = core._e_div(stop - start, step)
+        if type(q) is RealT:
+            n = ch.pick(q.__ceil__(), 0, 65)       # symbolic length, bounded to 64 elements
+        else:
+            n = int(math.ceil(q))
         vals = [start + i * step for i in range(_bmax(n, 0))]
         dt = FLOAT64
     if dtype is not None:
